@@ -572,3 +572,19 @@ Example ex_on_threadpool :
   | _, _ => False
   end.
 Proof. vm_compute. repeat split; try reflexivity. discriminate. Qed.
+
+(* the fairness hypothesis is not decoration: under a schedule that never gives a worker a turn (only
+   the main thread and spurious wake-ups) no item is ever processed, the first blocking dequeue does not
+   return within its rounds and the processor reports SQFS_ERROR_INTERNAL -- nothing is handed back
+   without a worker having run *)
+Definition ex_starve : schedule := fun _ => [CMain; CSpurWorker 0; CSpurWorker 1; CSpurMain].
+
+Example ex_starved_pool_does_not_deliver :
+  run_on_threadpool sum_hash toy_compress cht cht_search cht_insert cbw cbw_write (fun _ => 0%Z) ex_starve 2
+                    [] 4 3 [] (mkBw [] [] O) ex_files = Err E_INTERNAL /\
+  ~ admissible 2 ex_starve.
+Proof.
+  split; [vm_compute; reflexivity|]. intros H. destruct (H 0%nat) as [_ Hw].
+  specialize (Hw 0%nat (Nat.lt_0_succ 1)). simpl in Hw.
+  repeat (destruct Hw as [Hw|Hw]; [discriminate|]). exact Hw.
+Qed.
